@@ -7,5 +7,6 @@ CONSTANTS
   DevPopOldest = FALSE
   DevTruncAll = FALSE
   DevSwallowBreak = TRUE
+  DevSplitLast = FALSE
 CHECK_DEADLOCK FALSE
 INVARIANT StopsReading
